@@ -25,5 +25,13 @@ Proof.
   intros c H ops i Hi. apply C15_restore_exact; auto. left.
   pose proof all_deep as A. rewrite forallb_forall in A. auto.
 Qed.
+(* ... and for index-wise writes (arr[i] = x) *)
+Theorem C15_no_alias_backward_at : forall c, In c all_cfgs -> forall ops k i x,
+  store_vals c (step c (WriteRetAt k i x) (reach c ops)) = store_vals c (reach c ops).
+Proof.
+  intros c H ops k i x. apply no_alias_backward_at; [apply all_cfgs_ok; auto|].
+  pose proof all_deep as A. rewrite forallb_forall in A. auto.
+Qed.
+Print Assumptions C15_no_alias_backward_at.
 Print Assumptions C15_no_alias_backward.
 Print Assumptions C15_restore_exact_with_writes.
